@@ -43,7 +43,8 @@ class Ctx:
         self.trace = []          # decisions taken on this run
         self.pc = []             # path condition (z3 Bool terms)
         self.late = []           # stage-2 assumptions (regular-language facts of the lexer post-condition)
-        self.decided = {}        # z3 ast id -> bool, to answer repeated conditions without the solver
+        self.decided = {}        # z3 ast id -> (ast, bool): repeated conditions are answered without the solver.
+        #                          The ast is kept referenced: z3 reuses ids of garbage-collected terms.
         self.solver = z3.Solver()
         self.solver.set("timeout", self.FEAS_TIMEOUT_MS)
         self.nqueries = 0
@@ -60,7 +61,7 @@ class Ctx:
             return
         self.pc.append(cond)
         self.solver.add(cond)
-        self.decided[cond.get_id()] = True
+        self.decided[cond.get_id()] = (cond, True)
 
     def assume_late(self, cond):
         self.late.append(cond)
@@ -87,8 +88,9 @@ class Ctx:
         if z3.is_false(cond):
             return False
         key = cond.get_id()
-        if key in self.decided:
-            return self.decided[key]
+        hit = self.decided.get(key)
+        if hit is not None and hit[0].eq(cond):
+            return hit[1]
         i = len(self.trace)
         if i < len(self.prefix):
             v = self.prefix[i]
@@ -110,8 +112,8 @@ class Ctx:
         c = cond if v else z3.simplify(z3.Not(cond))
         self.pc.append(c)
         self.solver.add(c)
-        self.decided[key] = v
-        self.decided[c.get_id()] = True
+        self.decided[key] = (cond, v)
+        self.decided[c.get_id()] = (c, True)
         return v
 
     def choose(self, options):
